@@ -557,7 +557,7 @@ def _replay(spec):
                 prev_last = it.trajectory.values[-1].copy()
                 ret = it.integrate(inc.iloc[used:used + mm])
                 used += mm
-                if not _same(ret.values[0], prev_last) or len(ret) != mm + 1:
+                if len(ret) != mm + 1 or not _same(ret.values[0], prev_last):
                     failed.append('integrate did not return previous last row + appended rows')
             elif o == 'p':
                 before = it.trajectory.copy()
